@@ -25,7 +25,7 @@ QUERY_KINDS = ["pages", "crawled", "most_linked", "children", "pagelinks", "page
 # --------------------------------------------------------------------------
 def build_case(rng, spec, tier):
     tp = spec[tier]
-    pool, _ = make_pool(rng, n=rng.choice((8, 12, 16)), classes=("real", "real", "deep"))
+    pool, _ = make_pool(rng, n=rng.choice((8, 12, 16)), classes=("real", "real", "deep", "long"), long_ok=True)
     cfg = {"backend": rng.choice(["memory", "memory", "file"]), "default": rng.choice(["domain", "subdomain"]), "encoding": "utf-8",
            "overwrite": False, "rules": []}
     base = gen_history(rng, cfg, pool, set(), rng.choice((3, 6, 10)),
@@ -57,7 +57,7 @@ def build_case(rng, spec, tier):
         rest = [r for r in reqs if r["kind"] != "query"]
         rng.shuffle(rest)
         reqs = rest[: 3 - len(keep)] + keep
-    return {"engine": "scheduler", "cfg": cfg, "base": base, "requests": reqs, "sseed": rng.getrandbits(32)}
+    return {"engine": "scheduler", "cfg": cfg, "base": base, "requests": reqs, "sseed": rng.getrandbits(32), "warmup": rng.random() < 0.5}
 
 
 # --------------------------------------------------------------------------
@@ -201,6 +201,21 @@ def run_schedule(case, chooser, scratch, stats):
                     ctx["ps"] = sorted(p for p, g in m.we.items() if g == gid)
             gens.append([qreq, None, False, None, ctx])  # request, generator (created at first step), done, result, ctx
             queries[i] = {"req": qreq, "ctx": ctx, "snaps": [], "started": False, "done": False}
+        if case.get("warmup"):
+            # the same kinds of queries already ran once on this index before the concurrent phase:
+            # whatever a request keeps beyond its own lifetime is now in place
+            for qi, q in queries.items():
+                try:
+                    for _ in make_gen(sut, q["req"], q["ctx"]):
+                        pass
+                except Exception:
+                    pass
+            try:
+                for _ in sut.t.get_webentities_links_slow_iter():
+                    pass
+            except Exception:
+                pass
+            stats["C16_warmed_up_schedules"] += 1
         M.m2_take()
 
         def snapshot():
@@ -408,7 +423,9 @@ def bracket(q, res, snaps, ctx, stats):
         if kind == "pagelinks_all":
             for (a, b2), v in maxi.items():
                 if b2 in ever and (R[a] - {w}):
-                    hi[(a, b2)] = max(hi[(a, b2)], v)
+                    # the same page link may be reported once from its source's outbound list and once from
+                    # its target's inbound list when the source left the webentity between the two visits
+                    hi[(a, b2)] = hi[(a, b2)] + v
                 if b2 in always and mini[(a, b2)] and w not in R[a] and a not in ever:
                     lo[(a, b2)] = max(lo[(a, b2)], mini[(a, b2)])
         for k2, v in lo.items():
@@ -417,6 +434,29 @@ def bracket(q, res, snaps, ctx, stats):
         for k2, v in got.items():
             if v > hi[k2]:
                 return D(["C16"], "query-reports-item-that-never-qualified", query=kind, item=k2, got=v, at_most=hi[k2])
+        return None
+    if kind == "crawled":
+        # two facts about a page, possibly observed at different moments: it is reached from the
+        # webentity's prefixes (decided when its ancestors are walked) and it is crawled (read when it is visited)
+        got = Counter(x["lru"] for x in res)
+        ever_in = set()
+        always_in = None
+        ever_cr = set()
+        always_cr = None
+        for s_ in snaps:
+            mine = set(s_.we_pages(ps))
+            ever_in |= mine
+            always_in = set(mine) if always_in is None else (always_in & mine)
+            cr = {p_ for p_, c in s_.pages.items() if c}
+            ever_cr |= cr
+            always_cr = set(cr) if always_cr is None else (always_cr & cr)
+        for p_ in (always_in & always_cr):
+            if got[p_] < 1:
+                return D(["C16"], "query-misses-item-that-qualified-throughout", query=kind, item=p_)
+        for p_, v in got.items():
+            if v > 1 or p_ not in ever_in or p_ not in ever_cr:
+                return D(["C16"], "query-reports-item-that-never-qualified", query=kind, item=p_, got=v,
+                         ever_in_webentity=p_ in ever_in, ever_crawled=p_ in ever_cr)
         return None
     # page / webentity sets
     if kind in ("pages", "crawled"):
